@@ -53,6 +53,11 @@ orient_st = st.one_of(
     st.fixed_dictionaries({"t": st.just("basis"), "angles": st.lists(st.floats(0, 2 * math.pi), min_size=3, max_size=3)}),
     st.fixed_dictionaries({"t": st.just("normal"), "comps": st.lists(st.sampled_from([0.0, 1.0, -1.0, 0.5, 2.0, -0.3, 1e-3]),
                                                                      min_size=3, max_size=3)}),
+    # a normal along a coordinate axis given as a Vector (u, v are then chosen by osyris, not along the other axes), or an
+    # explicit basis with such a normal and u, v turned about it
+    st.fixed_dictionaries({"t": st.just("axis_normal"), "axis": st.integers(0, 2), "c": st.sampled_from([1.0, -1.0, 2.5, -0.5])}),
+    st.fixed_dictionaries({"t": st.just("basis_axis"), "axis": st.integers(0, 2), "sign": st.sampled_from([1.0, -1.0]),
+                           "angle": st.floats(0.15, 1.4)}),
 )
 
 
@@ -85,6 +90,11 @@ def map_case_st(draw, thick=False):
             case["res"] = {k: max(v, 10) for k, v in case["res"].items()}
         if case["orient"]["t"] in ("letter", "triple") and draw(st.integers(0, 3)) > 0:
             case["orient"] = {"t": "basis", "angles": [draw(st.floats(0.2, 1.3)) for _ in range(3)]}
+    if not thick and mesh["d"] == 3 and case["orient"]["t"] in ("axis_normal", "basis_axis") and draw(st.booleans()):
+        # cells several pixels wide seen along an axis with u, v turned: the tips of their footprint matter
+        case["window"]["cls"] = draw(st.sampled_from(["<0.1", "0.1-1", "0.1-1", "1-10"]))
+        case["window"]["given"] = True
+        case["res"] = draw(st.integers(14, 32))
     if not thick and draw(st.integers(0, 11)) == 0:
         # resolution given for one axis only (the other takes the default), or not at all
         k = case["res"] if isinstance(case["res"], int) else case["res"]["x"]
@@ -130,8 +140,22 @@ def direction_arg(orient, d):
         arg = osyris.VectorBasis(n=osyris.Vector(*R[:, 0].tolist()), u=osyris.Vector(*R[:, 1].tolist()),
                                  v=osyris.Vector(*R[:, 2].tolist()))
         return arg, (R[:, 0], R[:, 1], R[:, 2])
+    elif t == "basis_axis":
+        ax = orient["axis"]
+        n = np.zeros(3)
+        n[ax] = orient["sign"]
+        e1, e2 = np.zeros(3), np.zeros(3)
+        e1[(ax + 1) % 3], e2[(ax + 2) % 3] = 1.0, 1.0
+        u = math.cos(orient["angle"]) * e1 + math.sin(orient["angle"]) * e2
+        v = np.cross(n, u)
+        arg = osyris.VectorBasis(n=osyris.Vector(*n.tolist()), u=osyris.Vector(*u.tolist()), v=osyris.Vector(*v.tolist()))
+        return arg, (n, u, v)
     else:
-        c = list(orient["comps"])
+        if t == "axis_normal":
+            c = [0.0, 0.0, 0.0]
+            c[orient["axis"]] = orient["c"]
+        else:
+            c = list(orient["comps"])
         if not any(c):
             c = [0.0, 0.0, 1.0]
         arg = osyris.Vector(*c)
